@@ -10,7 +10,7 @@ BASE = {'addr_bits': 16, 'origin': 0, 'page_size': 4, 'pre_zones_op': 'ZonesA', 
 
 def windows(tier):
     if tier == 'quick':
-        return [(0, None, 0), (2, None, 234), (1, 3, 0), (3, 9, 234), (7, 7, 0), (9, 8, 0), (0, 12, 255), (12, None, 0)]
+        return [(0, None, 0), (2, None, 234), (1, 3, 0), (3, 9, 234), (7, 7, 0), (9, 8, 0), (0, 12, 255), (12, None, 0), (0, 0, 234)]
     ws = [(s, None, f) for s in range(0, 14, 1) for f in (0, 234)][:20]
     ws += [(s, e, 234 if (s + e) % 2 else 0) for s in range(0, 11) for e in range(max(s - 1, 0), 13)]
     return ws
@@ -25,6 +25,9 @@ def instances(tier):
     yield 'beyond-space', dict(BASE, addr_bits=5, max_len=2 if tier == 'quick' else 3, win_start=27, win_end=38, fill=170), 'AlphaC03', None
     yield 'beyond-global', dict(BASE, addr_bits=16, max_len=2 if tier == 'quick' else 3, win_start=10, win_end=25, fill=0, origin=4,
                                 pre_zones_op='ZonesB', pre_zones=[('GLOBAL', 4, 15), ('z1', 6, 9), ('z2', 14, 17)]), 'AlphaC03', None
+    # lines of more than 16 bytes, at every console verbosity (what is printed must not change what is written)
+    for v in (0, 1, 2, 3):
+        yield f'long-verbosity{v}', dict({'addr_bits': 16, 'origin': 0, 'page_size': 4}, max_len=3 if tier == 'quick' else 4, win_start=2, win_end=None if v % 2 else 70, fill=170, verbose=v), 'AlphaC03long', None
     if tier == 'quick':
         yield 'sim7', dict(BASE, max_len=7, win_start=3, win_end=10, fill=170), 'AlphaC03', 'num=3000'
     else:
@@ -37,7 +40,7 @@ def run(chk):
     chk.rule = ('for each window (start, end|none, fill) TLC enumerates every program up to MaxLen lines over AlphaC03 (data of '
                 '1,3,4 bytes, fills incl. zero-length, origins, muted regions, zone switch, alignment, trailing label, a '
                 'predefined data block at 6..7) and checks WindowFaithful and MemIsUnmutedBytes on the specification; every '
-                'scenario is assembled by the real code with -s/-e/-f and the whole image compared byte for byte. '
+                'scenario is assembled by the real code with -s/-e/-f and the whole image compared byte for byte; AlphaC03long (fills of 18 and 33 bytes) is run at verbosity 0..3. '
                 'Non-trivial = contains a byte-producing line; distinct by (program, window).')
     chk.rule += (' Code -> specification: the repository example programs (real ISAs, up to 36 KB images) and seeded random rich '
                  'carrier programs are assembled with the verification hooks on; every recorded pass-1 / pass-2 event and the image read '
